@@ -239,7 +239,7 @@ pub fn case_c05(d: &[u8]) -> c05::Case {
                 _ => EvKind::Bilinear(r.idx(n), r.idx(n)),
             };
             let terminal = if r.bool() { Some(1) } else { None };
-            EvRecipe { kind, at: place(r), dir: if terminal.is_some() { 0 } else { (r.u8() % 3) as i8 - 1 }, terminal }
+            EvRecipe { kind, at: place(r), dir: if terminal.is_some() { 0 } else { (r.u8() % 3) as i8 - 1 }, terminal, scale: 0 }
         })
         .collect();
     let nte = 1 + r.idx(24);
